@@ -56,7 +56,6 @@ Definition bset {A} (m : btmap A) (t : blob_type) (v : A) : btmap A :=
 Definition bmap {A B} (f : blob_type -> A -> B) (m : btmap A) : btmap B :=
   {| m_tree := f Tree (m_tree m); m_data := f Data (m_data m) |}.
 
-Inductive imode := Full | DataIds | OnlyTrees.
 
 (* IndexCollector::new *)
 Definition collector_new (m : imode) : btmap tcoll :=
@@ -72,9 +71,9 @@ Definition mk_entry (idx : nat) (b : iblob) : sentry :=
 
 (* one iteration of the loop of `impl Extend<IndexPack> for IndexCollector`;
    None = panic (pack-size overflow in the checked build, or "pack count doesn't fit into u32") *)
-Definition extend_one (c : btmap tcoll) (p : ipack) : option (btmap tcoll) :=
+Definition extend_one_with (psz : ipack -> option N) (c : btmap tcoll) (p : ipack) : option (btmap tcoll) :=
   let bt := pack_type p in
-  match pack_size p with
+  match psz p with
   | None => None
   | Some size =>
     let tc := bget c bt in
@@ -90,10 +89,22 @@ Definition extend_one (c : btmap tcoll) (p : ipack) : option (btmap tcoll) :=
                          c_total := c_total tc + size |})
     else None
   end.
-Definition extend_step (oc : option (btmap tcoll)) (p : ipack) : option (btmap tcoll) :=
-  match oc with None => None | Some c => extend_one c p end.
-Definition extend (c : btmap tcoll) (ps : list ipack) : option (btmap tcoll) :=
-  fold_left extend_step ps (Some c).
+Definition extend_step_with (psz : ipack -> option N) (oc : option (btmap tcoll)) (p : ipack) : option (btmap tcoll) :=
+  match oc with None => None | Some c => extend_one_with psz c p end.
+Definition extend_with (psz : ipack -> option N) (c : btmap tcoll) (ps : list ipack) : option (btmap tcoll) :=
+  fold_left (extend_step_with psz) ps (Some c).
+(* the checked (debug) build *)
+Definition extend_one := extend_one_with pack_size.
+Definition extend_step := extend_step_with pack_size.
+Definition extend := extend_with pack_size.
+
+(* the release build: u32 additions wrap, nothing panics in pack_size *)
+Definition u32_wadd (a b : N) : N := (a + b) mod U32.
+Definition pack_size_wrapping_computed (bs : list iblob) : N :=
+  fold_left (fun a b => u32_wadd (u32_wadd a (len (bloc b))) (entry_len b)) bs (u32_wadd COMP_OVERHEAD LENGTH_LEN).
+Definition pack_size_wrapping (p : ipack) : N :=
+  match psize p with Some s => s | None => pack_size_wrapping_computed (blobs p) end.
+Definition pack_size_release (p : ipack) : option N := Some (pack_size_wrapping p).
 
 (* ---------------------------------------------------------------- index *)
 (* TypeIndex { packs: Vec<PackId>, entries, total_size } *)
@@ -196,13 +207,65 @@ Definition into_iter_with (sort_p : list sentry -> list sentry) (ix : index) : l
   iter_type sort_p ix Tree ++ iter_type sort_p ix Data.
 
 (* ---------------------------------------------------------------- loading *)
-(* GlobalIndex::new_from_collector: `for index in stream_all { collector.extend(index.packs) }` *)
+(* generic loader: `for index in stream_all { collector.extend(<sections of index>) }`, then
+   into_index; psz = pack-size function of the build, ld = the sections fed to the collector *)
+Definition load_step_with (psz : ipack -> option N) (ld : ifile -> list ipack)
+           (oc : option (btmap tcoll)) (f : ifile) : option (btmap tcoll) :=
+  match oc with None => None | Some c => extend_with psz c (ld f) end.
+Definition collect_gen (psz : ipack -> option N) (ld : ifile -> list ipack)
+           (m : imode) (files : list ifile) : option (btmap tcoll) :=
+  fold_left (load_step_with psz ld) files (Some (collector_new m)).
+Definition index_of_gen (psz : ipack -> option N) (ld : ifile -> list ipack)
+           (sort_e : list sentry -> list sentry) (sort_i : list N -> list N)
+           (m : imode) (files : list ifile) : option index :=
+  match collect_gen psz ld m files with Some c => Some (into_index_with sort_e sort_i c) | None => None end.
+
+(* GlobalIndex::new_from_collector: `collector.extend(index.packs)` *)
 Definition loaded_packs (f : ifile) : list ipack :=
   (if LOADER_USES_PACKS then packs f else []) ++ (if LOADER_USES_MARKED then packs_to_delete f else []).
-Definition load_step (oc : option (btmap tcoll)) (f : ifile) : option (btmap tcoll) :=
-  match oc with None => None | Some c => extend c (loaded_packs f) end.
-Definition collect (m : imode) (files : list ifile) : option (btmap tcoll) :=
-  fold_left load_step files (Some (collector_new m)).
-Definition index_of_with (sort_e : list sentry -> list sentry) (sort_i : list N -> list N)
-           (m : imode) (files : list ifile) : option index :=
-  match collect m files with Some c => Some (into_index_with sort_e sort_i c) | None => None end.
+Definition load_step := load_step_with pack_size loaded_packs.
+Definition collect := collect_gen pack_size loaded_packs.
+Definition index_of_with := index_of_gen pack_size loaded_packs.
+(* the same loader in a release build *)
+Definition index_of_release_with := index_of_gen pack_size_release loaded_packs.
+
+(* PrunePlan::from_prune_options builds its own index: IndexCollector::new(PRUNE_INDEX_TYPE), per
+   file `extend(index.packs.clone())` then `extend(index.packs_to_delete.clone())`, into_index,
+   GlobalIndex::new_from_index.  Two extend calls in a row = one extend with the concatenation
+   (ProofsCollect.extend_app). *)
+Definition prune_loaded_packs (f : ifile) : list ipack :=
+  (if PRUNE_USES_PACKS then packs f else []) ++ (if PRUNE_USES_MARKED then packs_to_delete f else []).
+Definition prune_index_of_with := fun se si => index_of_gen pack_size prune_loaded_packs se si PRUNE_INDEX_TYPE.
+
+(* check_packs (commands/check.rs) builds the index `check` walks the trees with:
+   IndexCollector::new(CHECK_INDEX_TYPE), per file `extend(index.packs.clone())` *)
+Definition check_loaded_packs (f : ifile) : list ipack :=
+  (if CHECK_USES_PACKS then packs f else []) ++ (if CHECK_USES_MARKED then packs_to_delete f else []).
+Definition check_index_of_with := fun se si => index_of_gen pack_size check_loaded_packs se si CHECK_INDEX_TYPE.
+
+(* ---------------------------------------------------------------- GlobalIndex level *)
+(* ReadIndex::{has_tree, has_data, get_tree, get_data}; GlobalIndex delegates to the Index *)
+Definition has_tree (ix : index) (id : N) : bool := has ix Tree id.
+Definition has_data (ix : index) (id : N) : bool := has ix Data id.
+Definition get_tree (ix : index) (id : N) := get_id ix Tree id.
+Definition get_data (ix : index) (id : N) := get_id ix Data id.
+
+(* IndexEntry::read_data: be.read_encrypted_partial(FileType::Pack, &self.pack,
+   self.blob_type.is_cacheable(), self.location), which is
+   decode(read_partial(Pack, pack, cacheable, location.offset, location.length), location.uncompressed_length).
+   The backend read and the decryption/decompression are parameters (no crypto here). *)
+Record read_req := { r_pack : N; r_cacheable : bool; r_off : N; r_len : N; r_ulen : option N }.
+Definition is_cacheable (t : blob_type) : bool :=
+  match t with Tree => TREE_IS_CACHEABLE | Data => DATA_IS_CACHEABLE end.
+Definition read_request (ie : blob_type * N * loc) : read_req :=
+  let '(t, pk, lc) := ie in
+  {| r_pack := pk; r_cacheable := is_cacheable t; r_off := off lc; r_len := len lc; r_ulen := ulen lc |}.
+(* ReadIndex::blob_from_backend: None = Err("Blob not found in index") *)
+Definition blob_read_request (ix : index) (t : blob_type) (id : N) : option read_req :=
+  match get_id ix t id with Some ie => Some (read_request ie) | None => None end.
+Definition blob_from_backend {R : Type} (read_partial : N -> bool -> N -> N -> R) (decode : R -> option N -> R)
+           (ix : index) (t : blob_type) (id : N) : option R :=
+  match blob_read_request ix t id with
+  | Some rq => Some (decode (read_partial (r_pack rq) (r_cacheable rq) (r_off rq) (r_len rq)) (r_ulen rq))
+  | None => None
+  end.
